@@ -85,7 +85,8 @@ func runC02(c *core.Ctx, idx int) {
 				continue
 			}
 			n := int64(len(match))
-			for si := 0; si < 4; si++ {
+			var prevSort []qx.SortF
+			for si := 0; si < 5; si++ {
 				var sortSpec []qx.SortF
 				switch si {
 				case 0: // default order
@@ -94,8 +95,15 @@ func runC02(c *core.Ctx, idx int) {
 					if r.Bool() {
 						sortSpec = append(sortSpec, g.Sort(2)...)
 					}
+				case 4: // the previous symbols with every direction flipped (same store instance)
+					for _, f := range prevSort {
+						f.Desc = !f.Desc
+						f.Dir = map[bool]string{true: "desc", false: core.Pick(r, []string{"", "asc"})}[f.Desc]
+						sortSpec = append(sortSpec, f)
+					}
 				default:
 					sortSpec = g.Sort(5)
+					prevSort = sortSpec
 				}
 				scanner := "sorting"
 				if len(sortSpec) == 0 || sortSpec[0].Sym == "id" {
